@@ -45,7 +45,7 @@ func computeChildRoles(p *Program) *childRoles {
 		}
 	}
 	// one level down: calls in ManageChildren passing elements of those maps
-	for _, b := range mc.Blocks {
+	for _, b := range engine.BlocksInl(mc) {
 		for _, in := range b.Instrs {
 			ci, ok := in.(ssa.CallInstruction)
 			if !ok {
@@ -91,7 +91,7 @@ func (cr *childRoles) roleOf(p *Program, f *ssa.Function, v ssa.Value, depth int
 	role := ""
 	n := 0
 	for _, g := range p.Scanned {
-		for _, b := range g.Blocks {
+		for _, b := range engine.BlocksInl(g) {
 			for _, in := range b.Instrs {
 				ci, ok := in.(ssa.CallInstruction)
 				if !ok || engine.StaticFn(ci.Common()) != f || idx >= len(ci.Common().Args) {
@@ -366,7 +366,7 @@ func r02_2(r *Report, p *Program) {
 	// MakeControllerRef itself
 	if mk := fn(r, p, rule, "controller/common.MakeControllerRef"); mk != nil {
 		ok, why := false, "no OwnerReference literal"
-		for _, b := range mk.Blocks {
+		for _, b := range engine.BlocksInl(mk) {
 			for _, in := range b.Instrs {
 				a, isA := in.(*ssa.Alloc)
 				if !isA || !strings.HasSuffix(a.Type().String(), "meta/v1.OwnerReference") {
@@ -394,7 +394,7 @@ func r02_2(r *Report, p *Program) {
 	// ControllerRevision literals
 	nlit := 0
 	for _, f := range p.Scanned {
-		for _, b := range f.Blocks {
+		for _, b := range engine.BlocksInl(f) {
 			for _, in := range b.Instrs {
 				a, isA := in.(*ssa.Alloc)
 				if !isA || !strings.HasSuffix(a.Type().String(), "v1alpha1.ControllerRevision") || !a.Heap {
@@ -414,7 +414,7 @@ func r02_2(r *Report, p *Program) {
 				nlit++
 				// a store to .ObjectMeta.OwnerReferences depending on MakeControllerRef must precede every return
 				var stores []ssa.Instruction
-				for _, b2 := range f.Blocks {
+				for _, b2 := range engine.BlocksInl(f) {
 					for _, in2 := range b2.Instrs {
 						st, isS := in2.(*ssa.Store)
 						if !isS {
